@@ -472,7 +472,9 @@ class Rotation(DiscreteAffine, Similarity):
                 n = np.dot(p, p)
                 # epsilon for testing whether a number is close to zero
                 if n < np.finfo(float).eps * 4.0:
-                    return np.identity(4)
+                    # a (near) zero quaternion stands for the identity rotation
+                    self.set_rotation_matrix(np.identity(3), skip_checks=True)
+                    return
                 p = p * np.sqrt(2.0 / n)
                 p = np.outer(p, p)
                 rotation = np.array(
